@@ -26,10 +26,10 @@ SPEC = {
     "pid": "C16",
     "coq_targets": ["Props/C16.vo", "Extract/ExC16.vo"],
     "bin": "c16",
-    "sizes": {"quick": 12000, "thorough": 600000},
+    "sizes": {"quick": 60000, "thorough": 2000000},
     "search_n": 300000,
-    "rule": ("fixed family of 50 derived structs (28 UDT-value structs with SerializeValue+DeserializeValue, 12 row structs with "
-             "SerializeRow+DeserializeRow, 10 SerializeRow structs with #[scylla(flatten)]), each registered with its descriptor text; "
+    "rule": ("fixed family of 52 derived structs (28 UDT-value structs with SerializeValue+DeserializeValue, 12 row structs with "
+             "SerializeRow+DeserializeRow, 12 SerializeRow structs with #[scylla(flatten)]), each registered with its descriptor text; "
              "per struct: every permutation of its <= 6 bound fields, every subset of fields missing in 4 orders, one extra field at "
              "every position, two extras at every pair of positions, every field duplicated at every position, every field with "
              "every other DB type, Rust identifiers of renamed fields as DB names, a non-UDT type; per DB list one serialize case "
